@@ -180,6 +180,16 @@ func (t *ParserTerm) normalize(ctx *Context) {
 		t.Symbol = r.Rule
 	}
 
+	// childName names the child in the name of a generated rule. A parser rule
+	// may be called ERROR, so the error terminal is spelled the way it is
+	// written: 'ERROR*' and '@error*' are different rules.
+	childName := func() string {
+		if t.Child.Type == ParserTermError {
+			return "@error"
+		}
+		return t.Child.Symbol.TermName()
+	}
+
 	switch t.Type {
 	case ParserTermSimple, ParserTermError:
 		// No changes required.
@@ -189,7 +199,7 @@ func (t *ParserTerm) normalize(ctx *Context) {
 		//   =>
 		// a = b a'
 		// a' = c+ | ε
-		generate(t.Child.Symbol.TermName()+"*", func(r *ParserRule) {
+		generate(childName()+"*", func(r *ParserRule) {
 			r.Prods = []*ParserProd{
 				{
 					Terms: []*ParserTerm{
@@ -205,7 +215,7 @@ func (t *ParserTerm) normalize(ctx *Context) {
 		//   =>
 		// a = b a'
 		// a' = c+ | ε
-		generate(t.Child.Symbol.TermName()+"*!", func(r *ParserRule) {
+		generate(childName()+"*!", func(r *ParserRule) {
 			r.Prods = []*ParserProd{
 				{
 					Terms: []*ParserTerm{
@@ -222,7 +232,7 @@ func (t *ParserTerm) normalize(ctx *Context) {
 		// a = b a'
 		// a' = a' c
 		//    | c
-		generate(t.Child.Symbol.TermName()+"+", func(r *ParserRule) {
+		generate(childName()+"+", func(r *ParserRule) {
 			r.Prods = []*ParserProd{
 				{
 					Terms: []*ParserTerm{
@@ -244,7 +254,7 @@ func (t *ParserTerm) normalize(ctx *Context) {
 		// a = b a'
 		// a' = a' c
 		//    | c
-		generate(t.Child.Symbol.TermName()+"+!", func(r *ParserRule) {
+		generate(childName()+"+!", func(r *ParserRule) {
 			r.Prods = []*ParserProd{
 				{
 					Terms: []*ParserTerm{
@@ -265,7 +275,7 @@ func (t *ParserTerm) normalize(ctx *Context) {
 		//   =>
 		// a = b a'
 		// a' = c | ε
-		generate(t.Child.Symbol.TermName()+"?", func(r *ParserRule) {
+		generate(childName()+"?", func(r *ParserRule) {
 			r.Prods = []*ParserProd{
 				{
 					Terms: []*ParserTerm{
